@@ -213,15 +213,9 @@ def run(ctx):
     ok = len(st) == 1 and isinstance(op_const(st[0][1]["args"][1]), int) and op_const(st[0][1]["args"][1]) > MIN and bool(na) and td.dominates(st[0][0], na[0], unwind=False)
     ctx.ob("C20.4", "%s|pool-drop-retires-everyone" % td.id, "dropping the pool raises active_tasks above the minimum, then wakes every parked worker (so each re-evaluates and takes the timed branch)", ok, "%s:%d" % (td.file, td.line))
     # active_tasks writers
-    reg_new = roles.inherent(facts, REG, "new")
-    reg_drop = method(facts, T_DROP, REG, "drop")
-    for g, bb, t2 in facts.all_calls(lambda t2: call_matches(t2, r"atomic::Atomic(::<usize>|Usize)::(store|fetch_add|fetch_sub|swap|compare_exchange\w*|fetch_update)$")):
-        if g.rec.get("impl_self_adt") in (REG,) or g.id in (reg_new.id, reg_drop.id):
-            ok = (g.id == reg_new.id and t2["name"] == "fetch_add") or (g.id == reg_drop.id and t2["name"] == "fetch_sub")
-            ctx.ob("C20.4", "counter-write|%s" % g.id, "the registration guard increments on creation and decrements on drop", ok and op_const(t2["args"][1]) == 1, g.loc(bb))
-        elif "active_tasks" in arg_origin_fields(g, t2) or "waiting_tasks" in arg_origin_fields(g, t2):
-            ctx.ob("C20.4", "counter-write|%s" % g.id, "the worker counters are changed only by the registration guard and the pool's destructor", g.id == td.id, g.loc(bb))
+    shared.pool_counter_discipline(ctx, "C20.4")
     # the active guard lives for the whole worker: created before the first task, dropped on every exit including unwinding
+    reg_new = roles.inherent(facts, REG, "new")
     regs = [(bb, t2) for bb, t2 in w.calls() if call_is(t2, reg_new.id)]
     act = [(bb, t2) for bb, t2 in regs if "active_tasks" in arg_origin_fields(w, t2)]
     ctx.require(len(act) == 1, "C20.4: active-thread registration in the worker")
